@@ -233,8 +233,17 @@ def _cross_process(n_specs: int, hashseeds: list[str]):
     return run
 
 
-def _noop(case):
-    return None
+def _replay_cross(case):
+    """replay entry for the cross-process sub-check: fresh interpreters with the recorded hash seeds + this process"""
+    s = case["spec"]
+    vals = set()
+    for hs in case.get("hashseeds", ["0", "1"]):
+        txt = core.run_python(_SUBPROC.format(verif=core.VERIF_DIR), {"PYTHONHASHSEED": hs}, stdin=json.dumps([s]))
+        vals.add(json.dumps(json.loads(txt.strip().splitlines()[-1])[0][:2]))
+    c = L.make_cfg(s)
+    vals.add(json.dumps([c.stable_hash_cfg(), c.to_fname()]))
+    require(len(vals) == 1, "C18:hash-differs-across-processes", f"{vals}")
+    return {"nt": True, "labels": []}
 
 
 def subs(tier: str):
@@ -243,5 +252,5 @@ def subs(tier: str):
         Sub("round-trip", check, "hypothesis", strategy=lambda: _case(False), examples=40 if q else 600),
         Sub("one-field-variants", check, "hypothesis", strategy=lambda: _case(True), examples=60 if q else 900),
         Sub("collections", check_collection, "hypothesis", strategy=_collection, examples=10 if q else 150),
-        Sub("cross-process", _noop, "custom", run=_cross_process(60 if q else 300, ["0", "1", "4242"] if q else ["0", "1", "4242", "random", "99"])),
+        Sub("cross-process", _replay_cross, "custom", run=_cross_process(60 if q else 300, ["0", "1", "4242"] if q else ["0", "1", "4242", "random", "99"])),
     ]
